@@ -5,7 +5,7 @@ rule = ("for each of the 22 indicators (periods 1..4 and sampled larger): two in
         "position (every prefix position for short histories: fresh, warming up, full window, just reset; random positions in long ones) "
         "slot 0 is serialized with bincode and replaced by the deserialized value (sometimes twice in a row, sometimes again later), "
         "then both are probed and fed a common continuation of >= period+2 inputs; the serialized bytes of both are compared with the "
-        "model's byte image at the end. DataItem round-trips are covered by the builder probes of C16. Non-trivial: distinct case "
+        "model's byte image at the end. Plus, per indicator, one long run: 1000 inputs behind a 1e14 magnitude cliff, round-trip, 1200 more inputs. DataItem round-trips are covered by the builder probes of C16. Non-trivial: distinct case "
         "with at least one input after the round-trip")
 assumptions = ["bincode 1.3 default options; serde derive expansion is modelled (item layout), not verified"]
 
@@ -44,6 +44,20 @@ def gen_cases(ctx):
                         ops.append(("s", 0))
                 cases.append(Case("%s_g%d_%d_%d_%d_at%d" % (ind, gi, pr[0], pr[1], pr[2], pos), ops, dump=(0, 1),
                                   meta={"ind": ind, "params": pr[:3], "pos": pos, "after": len(rest)}))
+    # seed-independent long runs: state that is not carried by the serialized form (a tick counter behind serde(skip), a cache) only
+    # matters once maintenance code runs — history of 1000 inputs behind a magnitude cliff, round-trip, 1200 more inputs
+    for ind in ALL:
+        pr = long_params(ind, 4)
+        fd = long_feed(ind, 2200, "plain")
+        cl = long_feed(ind, 1, "plain")[0]
+        big = (cl[0], 0) + tuple((v * 1e14 if i < 4 or cl[0] == "n" else v) for i, v in enumerate(cl[2:]))
+        hist = [big] + [(o[0], 0) + tuple((v / 1000.0 if (o[0] == "n" or i < 4) else v) for i, v in enumerate(o[2:])) for o in fd]
+        ops = [new_op(0, ind, pr), new_op(1, ind, pr)]
+        for k, o in enumerate(hist):
+            ops += [o, (o[0], 1) + tuple(o[2:])]
+            if k == 1000:
+                ops += [("s", 0), ("d", 0), ("d", 1)]
+        cases.append(Case("%s_long_at1000" % ind, ops, dump=(0, 1), meta={"ind": ind, "params": pr[:3], "pos": 1000, "after": 1200}))
     # DataItem round-trips (builder probe: build, serialize, deserialize, compare field bits)
     vals = [0.0, -0.0, 1.0, 2.5, 1e-300, 1e300, 5e-324, float("inf")]
     k = 0
